@@ -92,6 +92,10 @@ def indexDocs (o : RecOpt) (gap : Nat) : Indexer → Nat → Corpus → Indexer
 def indexCorpus (o : RecOpt) (c : Corpus) : Indexer :=
   indexDocs o Gen.Postings.POSITION_GAP Indexer.init 0 c
 
+/-- tokens counted for the field norm of one document (`indexing_position.num_tokens`) -/
+def docTokenCount (o : RecOpt) (d : Doc) : Nat :=
+  (indexDoc o Gen.Postings.POSITION_GAP Indexer.init 0 d).totalNumTokens
+
 /-! ### the byte stream of a recorder -/
 
 def ser (v : Nat) : List Nat :=
